@@ -66,6 +66,82 @@ def run_request(line: str) -> str | None:
     return None
 
 
+def _still_wrong(req: str) -> bool:
+    """Generic 'this request still exhibits a problem' predicate used for shrinking: the real code and the model disagree on
+    it, or (for `ser … frames … gen:`) the referee does not accept the real bytes with the input as their denotation."""
+    from framework import canon_errors
+
+    real = run_request(req)
+    if real is None:
+        return False
+    model = common.run_driver([req])[0].replace("~", "")
+    if canon_errors(real) != canon_errors(model):
+        return True
+    toks = req.split(" ")
+    if toks[0] == "ser" and toks[2] == "frames" and toks[4].startswith("gen:") and real.startswith("ok ") and real.endswith(" end"):
+        import props
+
+        o = opts_from_token(toks[3])
+        stmts = parse_stmts(toks[4][4:])
+        b = bytes.fromhex(real.split(" ")[1])
+        verdict, evs, _ = props.parse_spec_response(common.run_driver([props.spec_line(b, o.delim)])[0])
+        want = " ".join("S" + common.stmt_text(x) for x in props.expected_events(stmts, toks[1])) or "_"
+        return verdict != "ok" or evs != want
+    return False
+
+
+def minimise(req: str, budget_s: float = 8.0, max_evals: int = 80) -> str | None:
+    """Greedy one-at-a-time shrinking of the statement list (`ser … gen:`) or of the op list (`step …`) of a failing request,
+    keeping it failing in the sense of `_still_wrong`. Returns the smaller request, or None if nothing could be removed."""
+    import time
+
+    t0, evals = time.time(), [0]
+
+    def wrong(r: str) -> bool:
+        evals[0] += 1
+        try:
+            return _still_wrong(r)
+        except Exception:  # noqa: BLE001
+            return False
+
+    toks = req.split(" ")
+    if toks[0] == "ser" and len(toks) == 5 and toks[4].startswith("gen:"):
+        head, items, join = toks[:4], toks[4][4:].split("/"), lambda xs: " ".join(head + ["gen:" + ("/".join(xs) if xs else "_")])
+    elif toks[0] == "ser" and len(toks) == 5 and toks[2] == "flat":
+        head, items, join = toks[:4], toks[4].split("/"), lambda xs: " ".join(head + ["/".join(xs) if xs else "_"])
+    elif toks[0] == "ser" and len(toks) == 5 and ("~" in toks[4]):
+        # sinks: [sink:]<identifier>~<bindings>~<statements>, several joined by "+": shrink the statements of every sink
+        pre = "sink:" if toks[4].startswith("sink:") else ""
+        sinks = [x.split("~") for x in toks[4][len(pre):].split("+")]
+        if any(len(x) != 3 for x in sinks):
+            return None
+        items = [(k, st) for k, x in enumerate(sinks) for st in (x[2].split("/") if x[2] != "_" else [])]
+
+        def join(xs, sinks=sinks, pre=pre, head=toks[:4]):
+            out = []
+            for k, x in enumerate(sinks):
+                mine = [st for kk, st in xs if kk == k]
+                out.append("~".join([x[0], x[1], "/".join(mine) if mine else "_"]))
+            return " ".join(head + [pre + "+".join(out)])
+    elif toks[0] == "step" and len(toks) > 4:
+        head, items, join = toks[:3], toks[3:], lambda xs: " ".join(head + xs)
+    else:
+        return None
+    if not wrong(join(items)):
+        return None
+    changed, i = False, 0
+    while i < len(items) and time.time() - t0 < budget_s and evals[0] < max_evals:
+        if items[i] in ("enroll",):
+            i += 1
+            continue
+        cand = items[:i] + items[i + 1:]
+        if cand and wrong(join(cand)):
+            items, changed = cand, True
+        else:
+            i += 1
+    return join(items) if changed else None
+
+
 def replay_file(path: str) -> int:
     d = json.loads(Path(path).read_text())
     reqs = []
